@@ -21,7 +21,14 @@ import (
 
 const neutral = "pn" // a pass/modify-only processor that config changes may touch
 
-var changeKinds = []string{"noop", "proc-settings", "conn-settings", "add-proc", "remove-proc", "add-dest", "dlq"}
+var changeKinds = []string{"noop", "proc-settings", "conn-settings", "add-proc", "remove-proc", "add-dest", "dlq", "two-procs-second-fails"}
+
+// neutral2 is a second pass/modify-only pipeline processor; the change kind
+// "two-procs-second-fails" updates both and the new configuration of neutral2
+// cannot be opened (badGen), so an in-place apply has to undo the first swap.
+const neutral2 = "pn2"
+const badGen = 99
+
 var variants = []string{"fresh", "fresh", "stale", "concurrent", "unauthorized", "storefault", "restartfail", "stopped"}
 
 func gen(seed int64, tier string, idx int) *pipe.Scenario {
@@ -35,6 +42,13 @@ func gen(seed int64, tier string, idx int) *pipe.Scenario {
 		p.Workers = 2 // not live-reconfigurable: falls back to a restart
 	}
 	sc.Topo.PipeProcs = append(sc.Topo.PipeProcs, p)
+	{
+		p2 := rig.ProcSpec{ID: neutral2}
+		p2.Script.Seed = g.R.Uint64()
+		p2.Script.ModifyPm = 300
+		p2.Script.OpenErr = map[int]string{badGen: "vf: this configuration cannot be opened"}
+		sc.Topo.PipeProcs = append(sc.Topo.PipeProcs, p2)
+	}
 	for i := range sc.Topo.Sources {
 		sc.Topo.Sources[i].Src.PaceUs = []int{100, 300, 800}[g.R.Intn(3)]
 	}
@@ -64,6 +78,15 @@ func desired(cur config.Pipeline, kind string, n int) config.Pipeline {
 		for i := range c.Processors {
 			if c.Processors[i].ID == neutral {
 				c.Processors[i].Settings = map[string]string{"vf.gen": fmt.Sprint(1 + n)}
+			}
+		}
+	case "two-procs-second-fails":
+		for i := range c.Processors {
+			switch c.Processors[i].ID {
+			case neutral:
+				c.Processors[i].Settings = map[string]string{"vf.gen": fmt.Sprint(1 + n)}
+			case neutral2:
+				c.Processors[i].Settings = map[string]string{"vf.gen": fmt.Sprint(badGen)}
 			}
 		}
 	case "conn-settings":
@@ -376,7 +399,7 @@ func judge(out *pipe.Outcome, ix *pipe.Index) pipe.Verdict {
 			}
 		}
 		// --- with authorisation, restart mode: the config is only written after a full drain
-		if a.Err == "" && a.Mode == "restart" && a.Kind != "proc-settings" {
+		if a.Err == "" && a.Mode == "restart" && a.Kind != "proc-settings" && a.Kind != "two-procs-second-fails" {
 			// (a processor-only change takes the in-place path first, which persists the new
 			// processor config before the swap; when the swap is not possible it falls back to
 			// a restart - the early write of the processor's stored config is part of that path)
@@ -532,6 +555,51 @@ func judge(out *pipe.Outcome, ix *pipe.Index) pipe.Verdict {
 			m = "err"
 		}
 		modes += m + ","
+	}
+	// live configuration == stored configuration: for every pipeline processor whose
+	// stored settings carry a generation ("vf.gen"), the processor session that is
+	// open at the end of the history was configured with exactly that generation
+	if len(st.applies) > 0 {
+		last := st.applies[len(st.applies)-1]
+		stored := map[string]string{}
+		for _, pr := range last.StoreExport.Processors {
+			if g, ok := pr.Settings["vf.gen"]; ok {
+				stored[pr.ID] = g
+			}
+		}
+		// sessions of a processor that are open (opened, not torn down) when the
+		// runner begins its final stop
+		liveGen := map[string]int{}
+		liveAt := map[string]int{}
+		liveSess := map[string]int{}
+		for i := range evs {
+			e := &evs[i]
+			if e.Kind == rig.KNote && e.Note == "final-stop" {
+				break
+			}
+			switch e.Kind {
+			case rig.KProcOpen:
+				if e.Err == "" {
+					liveGen[e.Comp], liveAt[e.Comp], liveSess[e.Comp] = e.Gen, i, e.Sess
+				}
+			case rig.KProcTeardown:
+				if s, ok := liveSess[e.Comp]; ok && s == e.Sess {
+					delete(liveGen, e.Comp)
+					delete(liveAt, e.Comp)
+					delete(liveSess, e.Comp)
+				}
+			}
+		}
+		for id, g := range stored {
+			lg, ok := liveGen[id]
+			if !ok || last.ret < 0 {
+				continue // no session of that processor is live
+			}
+			v.Stats["live_vs_stored_generation_obligations"]++
+			if fmt.Sprint(lg) != g {
+				add("live-config-differs-from-store", last.Kind+"/"+last.Variant, fmt.Sprintf("after ApplyPlanLive (%s/%s, err=%q, mode=%q) the stored configuration of processor %s has generation %s but the running pipeline's processor was last opened with generation %d", last.Kind, last.Variant, last.Err, last.Mode, id, g, lg), liveAt[id])
+			}
+		}
 	}
 	v.Nontrivial = v.Stats["applies_judged"] > 0
 	v.SigExtra = kind + "|" + modes
